@@ -1029,7 +1029,21 @@ pub fn lax_constructors(inp: &PV) -> PV {
     let hs = <LOH as Spider<VK>>::half_spider(s.clone(), ls(&w));
     let src = |f: &LOH| PV::of_ts(&<LOH as Arrow>::source(f).iter().map(|l| K::rd_l(l)).collect::<Vec<T>>());
     let tgt = |f: &LOH| PV::of_ts(&<LOH as Arrow>::target(f).iter().map(|l| K::rd_l(l)).collect::<Vec<T>>());
-    PV::List(vec![pv_lax(&id), pv_lax(&id2), pv_lax(&tw), src(&tw), tgt(&tw), pv_lax(&single), src(&single), tgt(&single), pv_opt_lax(sp), pv_opt_lax(sp2), pv_opt_lax(hs), pv_lax(&LOH::empty())])
+    // the strict constructors on the same arguments, and the strictified lax results (C10: strictification
+    // commutes with identity, symmetry, spiders and singleton; defined on both sides or on neither)
+    let sem = |v: &[T]| SemifiniteFunction::<VK, L>(open_hypergraphs::array::vec::VecArray(ls(v)));
+    let o = |x: Option<VOH>| match x {
+        None => PV::None,
+        Some(v) => PV::Some(Box::new(pv_voh(&v))),
+    };
+    let strict_side = PV::List(vec![
+        pv_voh(&<VOH as Arrow>::identity(sem(&a))),
+        pv_voh(&<VOH as SymmetricMonoidal>::twist(sem(&a), sem(&b))),
+        pv_voh(&VOH::singleton(K::mk_l(inp.at(2).t()), sem(&a), sem(&b))),
+        o(VOH::spider(s.clone(), t.clone(), sem(&w))),
+    ]);
+    let lax_side = PV::List(vec![pv_voh(&id.clone().to_strict()), pv_voh(&tw.clone().to_strict()), pv_voh(&single.clone().to_strict()), o(sp.clone().map(|x| x.to_strict()))]);
+    PV::List(vec![pv_lax(&id), pv_lax(&id2), pv_lax(&tw), src(&tw), tgt(&tw), pv_lax(&single), src(&single), tgt(&single), pv_opt_lax(sp), pv_opt_lax(sp2), pv_opt_lax(hs), pv_lax(&LOH::empty()), strict_side, lax_side])
 }
 
 // ------------------------------------------------------------------ C11 (imperative editing)
